@@ -139,11 +139,13 @@ func sigKeys(numParts int) []string {
 	return keys
 }
 
-// Staged persists the staging transaction as well as the channel's phase.
+// Staged persists the staging transaction (state and all signature slots) as
+// well as the channel's phase.
 func (pr *PersistRestorer) Staged(_ context.Context, s channel.Source) error {
 	db := pr.channelDB(s.ID()).NewBatch()
 
-	if err := dbPutSource(db, s, "staging:state", "phase"); err != nil {
+	keys := append([]string{"staging:state", "phase"}, sigKeys(len(s.Params().Parts))...)
+	if err := dbPutSource(db, s, keys...); err != nil {
 		return err
 	}
 
